@@ -25,6 +25,7 @@ GRAMMAR
         else: i, j, k, l = key.s ; return (VEC, VEC)          (or the two branches swapped under `if not key.is_shear`)
     VEC ::= VEC + VEC | VEC - VEC | VEC * VEC | VEC / VEC | strain[:, IDX] | numpy.sum(strain, axis=1|-1)
           | strain.sum(axis=1|-1) | local                     (all of shape (ntv,); anything else is a broadcasting error)
+          locals: `name = VEC` or `a, b = VEC, VEC`, each name assigned once
     IDX ::= name | name - int | name + int | int              name one of the four unpacked indices
   __eq__(self, other)
     S ::= if C: S+ [else: S+] | return C                      (falling off the end is refused)
@@ -134,15 +135,24 @@ def translate_param(cls):
                     bail(s, "index name `%s`" % n.id)
                 tr.idx[n.id] = c
             continue
+        pairs = None
         if isinstance(s, ast.Assign) and len(s.targets) == 1 and isinstance(s.targets[0], ast.Name):
-            nm = s.targets[0].id
-            if nm in tr.locals or nm in tr.idx or nm in ("strain", "key", "numpy"):
-                bail(s, "local `%s` assigned twice / shadows a name" % nm)
-            term = tr.vec(s.value)
-            lets.append(("l_" + nm, term))
-            tr.locals[nm] = "l_" + nm
+            pairs = [(s.targets[0], s.value)]
+        elif isinstance(s, ast.Assign) and len(s.targets) == 1 and isinstance(s.targets[0], ast.Tuple) \
+                and isinstance(s.value, ast.Tuple) and len(s.targets[0].elts) == len(s.value.elts) \
+                and all(isinstance(t, ast.Name) for t in s.targets[0].elts) and tr.idx:
+            # a, b = E1, E2 of array expressions: locals are single-assignment, so the right-hand sides cannot read the targets
+            pairs = list(zip(s.targets[0].elts, s.value.elts))
+        if pairs is not None:
+            terms = [tr.vec(v) for _, v in pairs]          # all right-hand sides first
+            for (t, _), term in zip(pairs, terms):
+                nm = t.id
+                if nm in tr.locals or nm in tr.idx or nm in ("strain", "key", "numpy", "r"):
+                    bail(s, "local `%s` assigned twice / shadows a name" % nm)
+                lets.append(("l_" + nm, term))
+                tr.locals[nm] = "l_" + nm
             continue
-        bail(s, "statement `%s` in the non-shear branch (accepted: `i, j, k, l = key.s`, `name = <array expression>`)" % src_of(s)[:80])
+        bail(s, "statement `%s` in the non-shear branch (accepted: `i, j, k, l = key.s`, `name = <array expression>`, `a, b = <array expression>, <array expression>`)" % src_of(s)[:80])
     for nm in list(tr.idx) + list(tr.locals) + ["strain", "key"]:
         if len(bindings_of(fn, nm)) != 1:
             bail(fn, "name `%s` is bound more than once in _make_param_by_strain_key" % nm)
